@@ -20,13 +20,13 @@ from harness.ref.refcrc import crc32c
 
 RULE = ('positive case = DAG spec + encoder freedoms (magic, size/off_bytes slack, idx, cache bits, crc, stored-hash subset, '
         'root list, order priorities); negative case = such an encoding + a corruption family (all proper prefixes; 1..8 '
-        'appended bytes; all single-bit flips when CRC-protected; dangling/backward/self reference rewrite). '
+        'appended bytes; all single-bit flips when CRC-protected; dangling/backward/self reference rewrite, also on cells no root reaches; fewer cells declared than stored). positive cases are also given as bytes / str subclasses and parsed into a Cell subclass with a re-entrant constructor. '
         'non-trivial = uses a freedom the library\'s own writer never uses (lean magic, slack widths, stored hashes, '
         'several roots, non-default order) or is a corruption case; distinct = distinct case')
 ASSUMPTIONS = ['harness/ref/refboc.py transcription of crypto/tl/boc.tlb', 'refcell.py for denoted hashes']
 
 
-def _encode(case, cells, ref_override=None, force_crc=None):
+def _encode(case, cells, ref_override=None, force_crc=None, declared=None):
     e = case['enc']
     roots = [cells[i % len(cells)] for i in case['roots']]
     magic = e['magic']
@@ -51,7 +51,7 @@ def _encode(case, cells, ref_override=None, force_crc=None):
     off = min(8, moff + e.get('off_extra', 0))
     data = refboc.encode(roots, magic=magic, size=size, off_bytes=off, has_idx=has_idx, has_cache_bits=cache, has_crc=crc,
                          with_hashes=hs, order=order, cache_bits={c % n for c in e.get('cachesel', [])},
-                         ref_override=ref_override)
+                         ref_override=ref_override, declared_cells=declared)
     return data, roots, order, size
 
 
@@ -75,6 +75,20 @@ def check_pos(case):
         diff = rc.structurally_equal_lib(r, l)
         if diff:
             return Fail(f'roots/structure-differs/{feat}', f'root {k}: {diff}; enc={e}')
+    # the same bytes held in a subclass of bytes / as hex or base64 text in a subclass of str, and parsed into an application's
+    # own Cell subclass whose constructor parses another bag first (a parse inside a parse): the same roots
+    import base64
+    App = dag.cell_subclass(dag.TEMPLATE_BAG)
+    for fname, thunk in (('bytes-subclass', lambda: Cell.from_boc(dag.BocBytes(data))),
+                         ('hex-str-subclass', lambda: Cell.from_boc(dag.BocText(data.hex()))),
+                         ('base64-str-subclass', lambda: Cell.from_boc(dag.BocText(base64.b64encode(data).decode()))),
+                         ('into-Cell-subclass/re-entrant-constructor', lambda: App.from_boc(data))):
+        ok, alt = call(thunk)
+        if not ok:
+            return Fail(f'valid-encoding-rejected/{fname}', f'{exc_sig(alt)}: {alt!r}; enc={e} boc={data.hex()[:300]}')
+        if not isinstance(alt, list) or [x.hash for x in alt] != [r.repr_hash() for r in roots] or \
+                any(rc.structurally_equal_lib(r, l) for r, l in zip(roots, alt)):
+            return Fail(f'roots/differ/{fname}', f'{alt!r}'[:200] + f'; enc={e} boc={data.hex()[:300]}')
     # the caller does what it likes with the list it was given; the same bytes parsed again denote the same roots
     got.append(got[0])
     got[0] = got[-1].copy() if len(got[0].refs) else Cell.empty()
@@ -159,6 +173,24 @@ def check_neg(case):
         data = refboc.encode(roots, magic=magic, size=size, has_idx=bool(e.get('idx')) or magic != 'generic',
                              has_crc=bool(e.get('crc')) or magic == 'idx_crc', order=order, ref_override={(ci, 0): v})
         return _must_raise(data, f'{("dangling", "self", "backward")[how]}-reference:unreachable cell {ci} ref 0 -> {v} (cells={n})')
+    if fam == 'declared':
+        # the header declares FEWER cells than the cell data holds (the index, when present, has as many entries as declared): a
+        # reference to a position >= the declared count is dangling by the format (a reference is an index < cells) although
+        # bytes of a cell happen to be there
+        data0, roots, order, size = _encode(case, cells)
+        n = len(order)
+        if n < 2:
+            return None
+        declared = n - 1 - case['pos'][0] % min(3, n - 1)
+        pos_of = {c.repr_hash(): i for i, c in enumerate(order)}
+        if any(pos_of[r.repr_hash()] >= declared for r in roots) or len(roots) > declared:
+            return None
+        hit = [(ci, pos_of[x.repr_hash()]) for ci, c in enumerate(order[:declared]) for x in c.refs if pos_of[x.repr_hash()] >= declared]
+        if not hit:
+            return None
+        data, *_ = _encode(case, cells, declared=declared)
+        return _must_raise(data, f'dangling-reference:cell {hit[0][0]} -> {hit[0][1]} with cells={declared} declared, {n} stored '
+                                 f'(crc={"yes" if case["enc"].get("crc") else "no"})')
     if fam in ('dangling', 'backward', 'self'):
         data0, roots, order, size = _encode(case, cells)
         n = len(order)
@@ -333,7 +365,7 @@ def strat_neg(tier):
                       dag.st_ord_dag(max_nodes=30, max_len=300))
     return st.fixed_dictionaries({'spec': small, 'enc': st_enc(), 'roots': st_roots(),
                                   'fam': st.sampled_from(['prefix', 'extend', 'bitflip', 'dangling', 'backward', 'self',
-                                                          'dangling', 'backward', 'self', 'orphan', 'orphan']),
+                                                          'dangling', 'backward', 'self', 'orphan', 'orphan', 'declared', 'declared']),
                                   'pos': st.lists(st.integers(0, 10 ** 6), min_size=2, max_size=40)})
 
 
